@@ -123,11 +123,11 @@ Fixpoint default_index (cls : list stmt) (i : nat) : option nat :=
   end.
 
 (** The bodies from the selected clause on: each in its own scope; [fallthrough] goes on with the
-    next body.  [xl] runs a statement list (it is [exec_list] with the remaining fuel). *)
+    next body ([fallthrough] itself is the empty last statement of [case_body]).  [xl] runs a statement list (it is [exec_list] with the remaining fuel). *)
 Fixpoint run_clauses (xl : list stmt -> env -> list Z -> res) (cls : list stmt) (E : env) (out : list Z) : res :=
   match cls with
   | SCase _ body ft :: rest =>
-      match xl body E out with
+      match xl (case_body body ft) E out with
       | Fuel => Fuel
       | Res ONormal E1 out1 =>
           if ft then run_clauses xl rest (restore E E1) out1 else Res ONormal (restore E E1) out1
